@@ -114,6 +114,8 @@ pub struct Tracer {
     pub emulate_ficlone: bool,
     pub ficlone_emulated: u64,
     pub short_then_err: BTreeMap<(usize, i32), i32>, // (client, fd) -> errno for the next write to that fd
+    pub quiesce_timeouts: u64,
+    pub held_polls: u64,
 }
 
 impl Tracer {
@@ -134,6 +136,8 @@ impl Tracer {
             emulate_ficlone: false,
             ficlone_emulated: 0,
             short_then_err: BTreeMap::new(),
+            quiesce_timeouts: 0,
+            held_polls: 0,
         }
     }
 
@@ -335,6 +339,15 @@ impl Tracer {
                 self.resume(tid, 0);
                 return;
             }
+            if sys.nr == 231 && self.clients[c].threads.values().filter(|t| t.state != TState::Exited).count() > 1 {
+                // exit_group of a multi-threaded client: let its background work (temp-file cleanup on pool
+                // threads) finish first, so that what is left on disk does not depend on real thread timing
+                if let Some(t) = self.clients[c].threads.get_mut(&tid) {
+                    t.cur = Some(sys);
+                    t.state = TState::ExitHeld;
+                }
+                return;
+            }
             let rel = self.relevant(&sys);
             if rel {
                 // a pending "retry fails" for this fd?
@@ -495,25 +508,146 @@ impl Tracer {
         self.resume(tid, 0);
     }
 
+    fn thread_blocked(pid: i32, tid: i32) -> bool {
+        // state 'S' (interruptible sleep) inside a system call that waits for another thread or a timer
+        let stat = match std::fs::read_to_string(format!("/proc/{}/task/{}/stat", pid, tid)) {
+            Ok(s) => s,
+            Err(_) => return true, // gone
+        };
+        let state = stat.rsplit(") ").next().and_then(|r| r.chars().next()).unwrap_or('?');
+        if state == 'Z' || state == 'X' {
+            return true;
+        }
+        if state != 'S' {
+            return false;
+        }
+        let sc = std::fs::read_to_string(format!("/proc/{}/task/{}/syscall", pid, tid)).unwrap_or_default();
+        let nr: i64 = sc.split_whitespace().next().and_then(|x| x.parse().ok()).unwrap_or(-1);
+        // futex, epoll_wait, epoll_pwait, epoll_pwait2, poll, ppoll, nanosleep, clock_nanosleep, read (eventfd/pipe), select, pselect6, wait4, rt_sigtimedwait
+        matches!(nr, 202 | 232 | 281 | 441 | 7 | 271 | 35 | 230 | 0 | 23 | 270 | 61 | 128)
+    }
+
+    /// returns true if it handled new wait events while waiting for the clients to become quiescent
+    fn quiesce_wait(&mut self, live: &[usize]) -> bool {
+        let mut handled = false;
+        let start = std::time::Instant::now();
+        loop {
+            let mut all_q = true;
+            for &c in live {
+                let cl = &self.clients[c];
+                if cl.threads.len() <= 1 {
+                    continue;
+                }
+                for t in cl.threads.values() {
+                    if t.state == TState::Running && !Self::thread_blocked(cl.pid, t.tid) {
+                        all_q = false;
+                        break;
+                    }
+                }
+                if !all_q {
+                    break;
+                }
+            }
+            if all_q {
+                // a last look for events that arrived meanwhile
+                let mut status = 0;
+                let r = unsafe { libc::waitpid(-1, &mut status, libc::__WALL | libc::WNOHANG) };
+                if r > 0 {
+                    self.handle(r, status);
+                    return true;
+                }
+                return handled;
+            }
+            let mut status = 0;
+            let r = unsafe { libc::waitpid(-1, &mut status, libc::__WALL | libc::WNOHANG) };
+            if r > 0 {
+                self.handle(r, status);
+                handled = true;
+                return true;
+            }
+            if start.elapsed().as_millis() > 300 {
+                self.quiesce_timeouts += 1;
+                return handled;
+            }
+            std::thread::sleep(std::time::Duration::from_micros(30));
+        }
+    }
+
     /// Process wait events until a decision is needed (every live client has a parked thread and
     /// nothing granted is still in flight), or everything has exited, or the watchdog fires.
+    /// release held exit_group calls whose client has become idle; returns (released any, some still held)
+    fn service_exit_held(&mut self) -> (bool, bool) {
+        let mut released = false;
+        let mut held = false;
+        for c in 0..self.clients.len() {
+            let hold: Vec<i32> = self.clients[c].threads.values().filter(|t| t.state == TState::ExitHeld).map(|t| t.tid).collect();
+            if hold.is_empty() {
+                continue;
+            }
+            let pid = self.clients[c].pid;
+            let busy = self.clients[c].threads.values().any(|t| match t.state {
+                TState::Parked | TState::Granted => true,
+                TState::Running => !Self::thread_blocked(pid, t.tid),
+                _ => false,
+            });
+            if busy {
+                held = true;
+                continue;
+            }
+            for tid in hold {
+                if let Some(t) = self.clients[c].threads.get_mut(&tid) {
+                    t.state = TState::Running;
+                    t.cur = None;
+                }
+                self.resume(tid, 0);
+                released = true;
+            }
+        }
+        (released, held)
+    }
+
     pub fn pump(&mut self) -> Pump {
         loop {
+            let (_released, held) = self.service_exit_held();
             let any_granted = self.clients.iter().any(|c| c.live() && c.threads.values().any(|t| t.state == TState::Granted));
             let live: Vec<usize> = self.clients.iter().filter(|c| c.live()).map(|c| c.idx).collect();
             if live.is_empty() {
                 return Pump::Done;
             }
-            if !any_granted && live.iter().all(|&c| !self.clients[c].parked().is_empty()) {
-                let mut v = Vec::new();
+            let exit_waiting = |cl: &Client| cl.parked().is_empty() && cl.threads.values().any(|t| t.state == TState::ExitHeld);
+            if !any_granted && live.iter().any(|&c| !self.clients[c].parked().is_empty()) && live.iter().all(|&c| !self.clients[c].parked().is_empty() || (exit_waiting(&self.clients[c]) && !self.clients[c].threads.values().any(|t| t.state == TState::Running && !Self::thread_blocked(self.clients[c].pid, t.tid)))) {
+                // multi-threaded clients: decide only when every other thread is parked or blocked in the kernel,
+                // so that the set of parked calls does not depend on real thread timing
+                if self.quiesce_wait(&live) {
+                    continue; // new events were handled: re-evaluate
+                }
+                let mut v: Vec<(usize, i32, String)> = Vec::new();
                 for &c in &live {
                     for tid in self.clients[c].parked() {
-                        v.push((c, tid));
+                        let key = self.clients[c].threads[&tid].cur.as_ref().map(|s| format!("{}|{}|{}", s.name, s.path.clone().unwrap_or_default(), s.path2.clone().unwrap_or_default())).unwrap_or_default();
+                        v.push((c, tid, key));
                     }
                 }
-                return Pump::Decide(v);
+                // canonical order: by client, then by the call itself (thread ids are not stable across runs)
+                v.sort_by(|a, b| a.0.cmp(&b.0).then(a.2.cmp(&b.2)));
+                return Pump::Decide(v.into_iter().map(|x| (x.0, x.1)).collect());
             }
             let mut status = 0;
+            if held {
+                // a client waits at exit_group for its own background threads: poll instead of blocking
+                let r = unsafe { libc::waitpid(-1, &mut status, libc::__WALL | libc::WNOHANG) };
+                if r > 0 {
+                    self.handle(r, status);
+                } else {
+                    self.held_polls += 1;
+                    if self.held_polls > 400_000 {
+                        self.hang = true;
+                        return Pump::Hang;
+                    }
+                    std::thread::sleep(std::time::Duration::from_micros(25));
+                }
+                continue;
+            }
             unsafe { libc::alarm(self.watchdog_s) };
             let r = unsafe { libc::waitpid(-1, &mut status, libc::__WALL) };
             unsafe { libc::alarm(0) };
